@@ -24,18 +24,20 @@ vars == <<l, failed, cs>>
 NoCase == [active |-> FALSE]
 
 NewCase(e) ==
-  [active |-> TRUE, mode |-> e.mode, differ |-> e.differ, realS |-> e.realS, realR |-> e.realR,
-   before |-> e.before, metaOnly |-> e.metaOnly,
-   src |-> IF "srcExact" \in DOMAIN e /\ e.srcExact THEN e.src ELSE <<>>,
+  \* NOTE: the state holds only small values; trees, the STAT log and the notification log
+  \* are read back from the (constant) trace at End -- TLC fingerprints the whole state at
+  \* every step, so a 300-entry tree in the state makes a 2000-event case quadratic.
+  [active |-> TRUE, beginL |-> l, mode |-> e.mode, differ |-> e.differ, realS |-> e.realS, realR |-> e.realR,
+   metaOnly |-> e.metaOnly,
    srcExact |-> "srcExact" \in DOMAIN e /\ e.srcExact,
-   stats |-> <<>>, ended |-> FALSE, vs |-> VSInit, vsOK |-> TRUE,
+   nStats |-> 0, lastP |-> <<>>, fileIds |-> {}, plainIds |-> {}, uncleanStat |-> FALSE, ended |-> FALSE,
    s2r |-> <<>>, r2s |-> <<>>,
    sReqLog |-> <<>>, sFinished |-> {}, sFinSeen |-> FALSE, sFinEchoed |-> FALSE,
    rStats |-> 0, rEnd |-> FALSE, rReq |-> {}, rTerm |-> {}, rFinSent |-> FALSE, rEof |-> FALSE,
    rMustFail |-> FALSE, rEchoSeen |-> FALSE, sErrSeen |-> FALSE, sEofSeen |-> FALSE,
    pS |-> [v |-> 0, final |-> FALSE], 
    retS |-> "none", retR |-> "none",
-   notes |-> <<>>, faults |-> 0, tornS |-> FALSE, tornR |-> FALSE]
+   faults |-> 0, tornS |-> FALSE, tornR |-> FALSE]
 
 Pfx(prop, S) == {prop \o "." \o c : c \in S}
 Cl(cond, name) == IF cond THEN {name} ELSE {}
@@ -43,23 +45,22 @@ Cl(cond, name) == IF cond THEN {name} ELSE {}
 HLPath(raw) == IF raw = <<>> THEN <<>> ELSE Split(raw)
 
 \* ---- sender emits ----------------------------------------------------------
+StatEntry(e) ==
+  LET raw == e.stat.raw
+      clean == CleanInside(raw)
+  IN [p |-> IF clean THEN Split(raw) ELSE <<raw>>, t |-> e.stat.t, perm |-> e.stat.perm, uid |-> e.stat.uid, gid |-> e.stat.gid,
+      size |-> e.stat.size, mt |-> e.stat.mt, ln |-> e.stat.ln, dev |-> e.stat.dev, x |-> e.stat.x,
+      hl |-> HLPath(e.stat.hl), sh |-> e.sh, c |-> "", raw |-> raw]
+
 SStat(c, e) ==
   LET raw == e.stat.raw
       clean == CleanInside(raw)
       p == IF clean THEN Split(raw) ELSE <<raw>>
-      hl == HLPath(e.stat.hl)
-      ent == [p |-> p, t |-> e.stat.t, perm |-> e.stat.perm, uid |-> e.stat.uid, gid |-> e.stat.gid,
-              size |-> e.stat.size, mt |-> e.stat.mt, ln |-> e.stat.ln, dev |-> e.stat.dev, x |-> e.stat.x,
-              hl |-> hl, sh |-> e.sh, c |-> ""]
-      ch == [raw |-> raw, kind |-> "add", isDir |-> e.stat.t = "dir"]
-      vok == c.vsOK /\ VSOk(c.vs, ch)
-      linkok == (e.stat.t = "file" /\ hl # <<>>) =>
-                  \E i \in DOMAIN c.stats : c.stats[i].p = hl /\ c.stats[i].t = "file" /\ c.stats[i].hl = <<>>
       bad == Cl(c.ended, "C06.statAfterEndMarker")
-             \cup Cl(c.vsOK /\ ~VSOk(c.vs, ch), "C11.streamNotValid")
-             \cup Cl(clean /\ c.stats # <<>> /\ ~LessComponentwise(c.stats[Len(c.stats)].p, p), "C06.statNotAscending")
-             \cup Cl(~linkok, "C11.hardlinkToUnsentEntry")
-  IN <<[c EXCEPT !.stats = Append(@, ent), !.vs = IF vok THEN VSNext(c.vs, ch) ELSE @, !.vsOK = vok,
+             \cup Cl(clean /\ c.lastP # <<>> /\ ~LessComponentwise(c.lastP, p), "C06.statNotAscending")
+  IN <<[c EXCEPT !.nStats = @ + 1, !.lastP = p, !.uncleanStat = @ \/ ~clean,
+               !.fileIds = IF e.stat.t = "file" THEN @ \cup {c.nStats} ELSE @,
+               !.plainIds = IF e.stat.t = "file" /\ e.stat.hl = <<>> THEN @ \cup {c.nStats} ELSE @,
                !.s2r = Append(@, [type |-> "STAT", end |-> FALSE])],
        IF c.realS THEN bad ELSE {}>>
 
@@ -88,10 +89,9 @@ SOther(c, e) == <<[c EXCEPT !.s2r = Append(@, [type |-> e.type])],
 \* ---- receiver emits --------------------------------------------------------
 RReq(c, e) ==
   LET known == e.id < c.rStats
-      st == IF e.id < Len(c.stats) THEN c.stats[e.id + 1] ELSE [t |-> "none", hl |-> <<>>]
       bad == Cl(~known, "C07.requestForUnannouncedId")
              \cup Cl(e.id \in c.rReq, "C07.requestedTwice")
-             \cup Cl(known /\ (st.t # "file" \/ st.hl # <<>>), "C07.requestForNonFileOrLink")
+             \cup Cl(known /\ e.id \notin c.plainIds, "C07.requestForNonFileOrLink")
              \cup Cl(c.rFinSent, "C07.requestAfterFin")
   IN <<[c EXCEPT !.rReq = @ \cup {e.id}, !.r2s = Append(@, [type |-> "REQ", id |-> e.id])],
        IF c.realR THEN bad ELSE {}>>
@@ -136,8 +136,8 @@ Prog(c, e) ==
 
 \* requests delivered to the sender that must make the call fail
 BadReqs(c) == \E i \in DOMAIN c.sReqLog :
-                \/ c.sReqLog[i] >= Len(c.stats)
-                \/ c.stats[c.sReqLog[i] + 1].t # "file"
+                \/ c.sReqLog[i] >= c.nStats
+                \/ c.sReqLog[i] \notin c.fileIds
                 \/ \E j \in 1..(i - 1) : c.sReqLog[j] = c.sReqLog[i]
 
 Ret(c, e) ==
@@ -149,34 +149,54 @@ Ret(c, e) ==
                          \cup Cl(~c.pS.final /\ c.pS.v > 0, "C06.noFinalProgressCall") ELSE {}>>
   ELSE <<[c EXCEPT !.retR = IF e.ok THEN "ok" ELSE "err"],
          IF c.realR THEN Cl(e.ok /\ ~c.rFinSent, "C07.successWithoutFin")
+                         \cup Cl(e.ok /\ ~c.rFinSent, "C04.receiveSuccessWithoutFin")
                          \cup Cl(~e.ok /\ c.faults = 0 /\ ~c.rMustFail /\ ~c.rEof /\ ~c.tornS /\ c.retS = "none"
-                                 /\ c.vsOK, "C07.failedWithoutCause")
+                                 /\ ~c.uncleanStat, "C07.failedWithoutCause")
                          \cup Cl(e.ok /\ ~c.rEof, "C07.successBeforeEndOfStream")
                          \cup Cl(e.ok /\ c.rMustFail, "C07.successDespiteInvalidStream") ELSE {}>>
 
 \* ---- end of case: outcome ------------------------------------------------------
-ViewOf(c, vc) == [i \in DOMAIN c.stats |-> [c.stats[i] EXCEPT !.c = vc[i]]]
-ReqPaths(c) == {c.stats[id + 1].p : id \in {x \in c.rReq : x < Len(c.stats)}}
+\* the events of the current case, read back from the trace
+CaseEvents(c, upto) == TLCEval(SubSeq(Trace, c.beginL, upto))
+StatsOf(evs) == LET S == SelectSeq(evs, LAMBDA x : x.ev = "Pkt" /\ x.ep = "S" /\ x.type = "STAT" /\ ~x.end)
+                IN TLCEval([i \in DOMAIN S |-> StatEntry(S[i])])
+NotesOf(evs) == LET S == SelectSeq(evs, LAMBDA x : x.ev = "Notify")
+                IN TLCEval([i \in DOMAIN S |-> [kind |-> S[i].kind, p |-> S[i].p, sh |-> S[i].sh, hdr |-> S[i].hdr,
+                                                 bytes |-> S[i].bytes, dgOK |-> S[i].dgOK]])
+\* TLCEval: function constructors are lazy in TLC; without it every view[i] re-evaluates the body
+ViewOf(stats, vc) == TLCEval([i \in DOMAIN stats |-> [stats[i] EXCEPT !.c = vc[i]]])
+ReqPaths(c, stats) == {stats[id + 1].p : id \in {x \in c.rReq : x < Len(stats)}}
+ChangesOf(stats) == TLCEval([i \in DOMAIN stats |-> [raw |-> stats[i].raw, kind |-> "add", isDir |-> stats[i].t = "dir"]])
+LinksOK(stats) == \A i \in DOMAIN stats :
+                    (stats[i].t = "file" /\ stats[i].hl # <<>>) =>
+                      \E j \in 1..(i - 1) : stats[j].p = stats[i].hl /\ stats[j].t = "file" /\ stats[j].hl = <<>>
 
 EndClauses(c, e) ==
-  LET view == ViewOf(c, e.vc)
+  LET evs == CaseEvents(c, l)
+      begin == evs[1]
+      before == begin.before
+      stats == StatsOf(evs)
+      notes == NotesOf(evs)
+      view == ViewOf(stats, e.vc)
       after == e.after
       merge == c.mode = "merge"
       bothOK == c.retS = "ok" /\ c.retR = "ok"
-      reqs == ReqPaths(c)
-      wf == SortedTree(after) /\ SortedTree(c.before)
+      reqs == ReqPaths(c, stats)
+      vsOK == VSFirstReject(ChangesOf(stats)) = 0
+      wf == SortedTree(after) /\ SortedTree(before)
       outcome ==
         IF ~wf THEN {"HARNESS.snapshotNotSorted"}
         ELSE IF c.metaOnly THEN {}
-        ELSE Pfx("C01", IF merge THEN OverlayClauses(view, after, c.before) ELSE ConvergedClauses(view, after, c.before))
-             \cup Pfx("C02", Cl(~ReqOK(reqs, view, c.before, c.differ, merge), "contentRequestSet")
-                             \cup (IF merge \/ c.differ = "none" THEN {} ELSE KeptClauses(view, after, c.before)))
-             \cup Pfx("C02", Cl(~merge /\ c.differ = "metadata" /\ Changed(view, c.before) = {} /\ Deleted(view, c.before) = {}
-                                /\ (c.notes # <<>> \/ c.rReq # {}), "resyncOfUnchangedSourceNotSilent"))
-             \cup Pfx("C07", Cl(~ReqOK(reqs, view, c.before, c.differ, merge), "contentRequestSet"))
-             \cup Pfx("C05", NotifyClauses(c.notes, view, c.before, after, reqs, c.differ, merge))
+        ELSE Pfx("C01", IF merge THEN OverlayClauses(view, after, before) ELSE ConvergedClauses(view, after, before))
+             \cup Pfx("C02", Cl(~ReqOK(reqs, view, before, c.differ, merge), "contentRequestSet")
+                             \cup (IF merge \/ c.differ = "none" THEN {} ELSE KeptClauses(view, after, before)))
+             \cup Pfx("C02", Cl(~merge /\ c.differ = "metadata" /\ Changed(view, before) = {} /\ Deleted(view, before) = {}
+                                /\ (notes # <<>> \/ c.rReq # {}), "resyncOfUnchangedSourceNotSilent"))
+             \cup Pfx("C07", Cl(~ReqOK(reqs, view, before, c.differ, merge), "contentRequestSet"))
+             \cup Pfx("C05", NotifyClauses(notes, view, before, after, reqs, c.differ, merge))
   IN
-  (IF c.retR = "ok" /\ c.realR /\ c.vsOK THEN outcome ELSE {})
+  (IF c.retR = "ok" /\ c.realR /\ vsOK THEN outcome ELSE {})
+  \cup (IF c.realS THEN Cl(~vsOK, "C11.streamNotValid") \cup Cl(~LinksOK(stats), "C11.hardlinkToUnsentEntry") ELSE {})
   \cup (IF c.realS /\ c.retS = "ok"
         THEN Cl(~(SReqIds(c) \subseteq c.sFinished), "C06.requestNotAnswered")
              \cup Cl(BadReqs(c), "C06.invalidRequestAccepted")
@@ -186,16 +206,19 @@ EndClauses(c, e) ==
   \cup Cl(c.realS /\ ~c.realR /\ c.faults = 0 /\ ~BadReqs(c) /\ c.sFinSeen /\ c.retS = "err", "C06.validSessionFailed")
   \* one STAT per entry of the (unfiltered, on-disk) view, in walk order, same type
   \cup Cl(c.realS /\ c.srcExact /\ c.ended
-         /\ ~(Len(c.stats) = Len(c.src) /\ \A i \in DOMAIN c.src : c.stats[i].p = c.src[i].p /\ c.stats[i].t = c.src[i].t),
+         /\ ~(Len(stats) = Len(begin.src) /\ \A i \in DOMAIN begin.src : stats[i].p = begin.src[i].p /\ stats[i].t = begin.src[i].t),
          "C06.statPerViewEntry")
   \cup (IF c.realS /\ c.realR /\ c.faults = 0 /\ ~bothOK THEN {"C11.faultFreeTransferFailed"} ELSE {})
   \cup Cl(c.retS = "none" \/ c.retR = "none", "C04.callDidNotReturn")
 
 EndDetail(c, e) ==
-  LET view == ViewOf(c, e.vc) IN
-  ToString([notify |-> NotifyDetail(c.notes, view, c.before, c.differ, c.mode = "merge"),
-            reqs |-> ReqPaths(c), needed |-> Needed(view, c.before),
-            changed |-> Changed(view, c.before), exception |-> Exception(view, c.before)])
+  LET evs == CaseEvents(c, l)
+      before == evs[1].before
+      stats == StatsOf(evs)
+      view == ViewOf(stats, e.vc) IN
+  ToString([notify |-> NotifyDetail(NotesOf(evs), view, before, c.differ, c.mode = "merge"),
+            reqs |-> ReqPaths(c, stats), needed |-> Needed(view, before),
+            changed |-> Changed(view, before), exception |-> Exception(view, before)])
 
 \* ---- the step ---------------------------------------------------------------
 Consume(c, e) ==
@@ -215,17 +238,22 @@ Consume(c, e) ==
          [] e.ev = "Dlv" /\ e.ep = "S" -> DlvS(c, e)
          [] e.ev = "Progress" -> Prog(c, e)
          [] e.ev = "Return" -> Ret(c, e)
-         [] e.ev = "Notify" -> <<[c EXCEPT !.notes = Append(@, [kind |-> e.kind, p |-> e.p, sh |-> e.sh, hdr |-> e.hdr,
-                                                              bytes |-> e.bytes, dgOK |-> e.dgOK])], {}>>
+         [] e.ev = "Notify" -> <<c, {}>>
          [] e.ev = "Fault" -> <<[c EXCEPT !.faults = @ + 1], {}>>
          [] e.ev = "Break" -> <<[c EXCEPT !.faults = @ + 1], {}>>
          [] e.ev = "TearDown" -> <<IF e.ep = "S" THEN [c EXCEPT !.tornS = TRUE] ELSE [c EXCEPT !.tornR = TRUE], {}>>
          [] e.ev = "Overlap" -> <<c, {"C08.concurrentStreamCalls"}>>
          [] e.ev = "Race" -> <<c, {"C08.dataRace"}>>
-         [] e.ev = "Hang" -> <<c, {"C04.hang"}
-                                  \cup Cl(c.faults = 0 /\ c.realS /\ e.side = "S", "C06.senderStuckWithConformingPeer")
-                                  \cup Cl(c.faults = 0 /\ c.realR /\ e.side = "R", "C07.receiverStuckWithConformingPeer")>>
+         [] e.ev = "Hang" -> <<c, {"C04.hang"}>>
          [] e.ev = "Stall" -> <<c, {"HARNESS.stall"}>>
+         \* nothing moved and a call had not returned; the environment then tore the stream down.
+         \* After a fault this is allowed (C04 only demands termination once the stream is torn
+         \* down); without any fault it means the two conforming peers deadlocked.
+         [] e.ev = "Quiesce" -> <<[c EXCEPT !.faults = @ + 1],
+                                  Cl(c.faults = 0 /\ c.realS /\ ~e.sReturned, "C06.senderStuckWithConformingPeer")
+                                  \cup Cl(c.faults = 0 /\ c.realR /\ ~e.rReturned, "C07.receiverStuckWithConformingPeer")
+                                  \cup Cl(c.faults = 0 /\ c.realS /\ c.realR, "C11.faultFreeTransferStuck")>>
+         [] e.ev = "EnvTearDown" -> <<c, {}>>
          [] e.ev = "Leak" -> <<c, {"C04.goroutineLeak"}>>
          [] e.ev = "End" -> <<NoCase, EndClauses(c, e)>>
          [] OTHER -> <<c, {"HARNESS.unknownEvent"}>>
